@@ -18,6 +18,10 @@
 (* e.pre = "prev" marks a call of a session: the preceding call on the same         *)
 (* primitive instance took its arguments (e.pre_arg, e.pre_info) from the same      *)
 (* buffers, which the caller then overwrote in place (class "seq").                 *)
+(* Events with out_at_return / out_retained belong to a sequence (e.seq, e.seq_i) in *)
+(* which the caller RETAINED the returned slices across later calls: an output must *)
+(* not change after it was returned, and what a retained ciphertext slice holds     *)
+(* afterwards (class "retained") must still decrypt to its own plaintext e.want.    *)
 (* Such a call is judged like any other: with the right key and context the        *)
 (* plaintext must come back (round-trip clause), and with another context it must   *)
 (* be rejected (context binding), whatever happened before.                         *)
@@ -59,6 +63,10 @@ OracleAnswers(e) ==
 Oracle(e, param, seed, ct) ==
   IF e.ml_param = param /\ H(e.ml_seed) = seed /\ H(e.ml_ct) = ct THEN <<e.ml_ok, H(e.ml_ss)>> ELSE <<FALSE, <<>>>>
 
+\* Retained outputs: the caller kept the returned slice across later calls on the same primitive;
+\* out_at_return is its content when it was returned, out_retained its content afterwards.
+OutputChanged(e) == "out_retained" \in DOMAIN e /\ e.out_retained # e.out_at_return
+
 RefDecrypt(e) ==
   IF e.scheme = "HPKE"
   THEN HpkeTinkDecrypt(Suite(e), e.variant, H(e.id), H(e.skR), H(e.ct), H(e.info), LAMBDA p, s, c : Oracle(e, p, s, c))
@@ -69,6 +77,7 @@ Judge(e) ==
     [] e.ev = "encrypt" ->
          IF e.panic THEN <<"Encrypt panicked">>
          ELSE IF e.err THEN <<"Encrypt failed with a valid public key">>
+         ELSE IF OutputChanged(e) THEN <<"a ciphertext returned by Encrypt changed while the caller kept it across later calls", e.out_at_return>>
          ELSE IF ~OracleAnswers(e) THEN <<"INFRA: ML-KEM oracle of the driver does not answer the specification's query">>
          ELSE LET r == RefDecrypt(e)
               IN IF ~r[1] THEN <<"the reference (RFC 9180 / ECIES) cannot decrypt Tink's ciphertext with the recipient key">>
@@ -80,6 +89,9 @@ Judge(e) ==
          ELSE LET want == RefDecrypt(e)
               IN IF e.class = "mut" /\ want[1] THEN <<"INFRA: the reference accepts an input the driver calls mutated">>
                  ELSE IF e.class = "ref" /\ want # <<TRUE, H(e.want)>> THEN <<"INFRA: the reference does not decrypt its own ciphertext">>
+                 ELSE IF e.class = "retained" /\ want # <<TRUE, H(e.want)>>
+                      THEN <<"the content of a retained ciphertext slice no longer decrypts to its plaintext", e.want>>
+                 ELSE IF OutputChanged(e) THEN <<"a plaintext returned by Decrypt changed while the caller kept it across later calls", e.out_at_return>>
                  ELSE IF want[1] # (~e.err)
                       THEN <<IF want[1] THEN "Decrypt rejected a ciphertext the reference decrypts"
                                         ELSE "Decrypt accepted an input the reference rejects", BytesToHex(want[2])>>
